@@ -109,6 +109,8 @@ def w7(facts, tier):
 def w7d(facts, tier):
     from ..rules.derive_rules import corpus_types, impl_fn
     W = wire.WireAnalysis(facts)
+    from .. import packed as _packed
+    pe = _packed.PackedEval(facts)
     agg = {}
     for m in corpus_types(facts):
         ty = m["id"]
@@ -131,13 +133,16 @@ def w7d(facts, tier):
             except Undecided as e:
                 und = str(e)
                 continue
-            lw, _, _, _ = W.lang(wf, v, {("Packed", ty): False}, {})
-            if lw == rx.VOID:
-                continue   # a plain Removed field would have to be written: the writer diverges at this version
-            ok, word, a, b = W.contains_modulo_expansion(lw, ls, v, {})
-            n += 1
-            if ok is not True and worst is None:
-                worst = (ok, v, word, a, b)
+            for pk in (False, True):
+                if pk and pe.decide(ty, v) is not True:
+                    continue   # the raw path is only taken where the decision says yes
+                lw, _, _, _ = W.lang(wf, v, {("Packed", ty): pk}, {})
+                if lw == rx.VOID:
+                    continue   # a plain Removed field would have to be written: the writer diverges at this version
+                ok, word, a, b = W.contains_modulo_expansion(lw, ls, v, {})
+                n += 1
+                if ok is not True and worst is None:
+                    worst = (ok, v, word, a, b)
         if worst is not None:
             ok, v, word, a, b = worst
             cause = None
